@@ -823,6 +823,14 @@ def _make_record(r, fam):
         for w in where:
             y[w] = [dropval, np.nan, np.inf, -np.inf, dropval * (1 + 0.004)][int(r.integers(5))]
             planted[w] = True
+    if fam == "dropouts" and n >= 25 and r.random() < 0.5 and planted.any():
+        # one wild time stamp (far more than 3 sigma from the mean: documented to be
+        # deleted) AFTER the first drop-out
+        first = int(np.nonzero(planted)[0].min())
+        cand = [k for k in range(first + 1, n - 1) if not planted[k]]
+        if cand:
+            w = cand[int(r.integers(0, len(cand)))]
+            t[w] = t[w] + 50.0 * (t.max() - t.min() + dt) * (1 if r.random() < 0.7 else -1)
     order = np.arange(n)
     if fam == "unsorted":
         for _ in range(int(r.integers(1, 4))):
